@@ -206,6 +206,9 @@ def run_driver(requests):
     if not requests:
         return []
     data = "".join(json.dumps(r, separators=(",", ":")) + "\n" for r in requests)
+    if os.environ.get("VERIF_DUMP_REQUESTS"):        # debugging aid: keep the batch sent to the driver
+        with open(os.environ["VERIF_DUMP_REQUESTS"], "a") as f:
+            f.write(data)
     r = subprocess.run([DRIVER], input=data.encode(), capture_output=True)
     if r.returncode != 0:
         raise HarnessError(f"driver exit {r.returncode}: {r.stderr.decode()[-2000:]}")
